@@ -1926,3 +1926,11 @@ package gogen
 //@ partial
 //@ requires cb != nil && cb.pkg != nil && cb.pkg.names != nil
 //@ assertcall Insert: in(pkg.names, name)
+
+// overload families declared by a XGoo_ constant: a blank entry at position i names the function <name>__<d> where d
+// is the i-th digit of the base-36 index alphabet (the same alphabet toIndex decodes), prefixed by "." for methods
+//@ func InitXGoPackageEx
+//@ prop C06
+//@ partial
+//@ requires pkg != nil
+//@ assertcall lookupFunc: imp(names[i] == "", arg_name == ite(m.typ != nil, ".", "") + m.name + "__" + IndexDigit(i)) && imp(names[i] != "", arg_name == names[i])
